@@ -142,3 +142,23 @@ _add(
          "and clear semantics are checked, and the functional trace forms are checked on the same kind of histories.",
     technique="runtime monitoring: closed-form reference model over the recorded event list against the real reducers and trace functions",
 )
+
+_add(
+    "C04",
+    rule="4 synapse classes x dt {1,0.5,1.3} x maximum delay {0, dt, 2.5dt, 3dt, 5dt} x interpolation {previous, "
+         "nearest} x tolerance {0,1e-3} x current/spike overbound {value, None} x batch 1-3 x shapes x inplace, spike "
+         "trains {random, all-ones, single impulse, alternating, silent} of 8-28 steps with injected currents for "
+         "delta-plus; after every step the forward return, .current and .spike are judged, and generated per-element "
+         "selectors (on/off grid inside the range, at 0 and at the maximum delay, inside the tolerance band, beyond "
+         "both ends, with and without an extra selector axis) are judged through current_at / spike_at; an in-place "
+         "twin is compared bit-for-bit. One evaluation = one step or one delayed query; distinct = (synapse, dt, "
+         "delay, tolerance, interpolation, query class, overbound setting, train, inplace, batch) abstractions.",
+    required=["steps_checked", "queries_checked", "twin_comparisons", "queries.in", "queries.beyond", "queries.negative",
+              "queries.limit", "queries.band"],
+    floor={"quick": 300, "thorough": 800},
+    text="Held on every spike train and selector explored: the real synapses (float64) are stepped on generated trains, "
+         "the reported current is compared with the closed-form impulse-response sum over the recorded inputs, delayed "
+         "reads are compared with what the oracle had that long ago (or the documented interpolation / overbound "
+         "rule), and an in-place twin must agree exactly.",
+    technique="runtime monitoring: closed-form kernel-sum reference model + in-place/out-of-place twin comparison on the real synapse classes",
+)
